@@ -285,6 +285,29 @@ def scan (file : Bytes) : ScanOut := scanLoop scanStep (file.length + 1) file 0 
 /-- `scanFile(path, 0)` — code before the fix -/
 def scanLegacy (file : Bytes) : ScanOut := scanLoop scanStepLegacy (file.length + 1) file 0 []
 
+/-! ### start-up on the file (`FileQueue.checkFile`) and the write position
+
+  `checkFile` scans tmp.data and sets `Offset` to where the scan stopped. Since /repo commit "fix:
+  FileQueue.checkFile truncates tmp.data at the end of the last complete record" it also truncates the file
+  to that offset (`os.Truncate`: cuts a torn tail off, or extends a cut padding with zeros).
+  `Put`/`PutBatch` then write at `Offset` WITHOUT truncating (`FileUtilsFlush`: Seek + Write). -/
+
+/-- `os.Truncate(path, n)` -/
+def truncateTo (file : Bytes) (n : Nat) : Bytes := file.take n ++ zeros (n - file.length)
+
+/-- `FileUtilsFlush(path, off, b)`: seek to `off`, write `b`, keep whatever lies behind -/
+def writeAt (file : Bytes) (off : Nat) (b : Bytes) : Bytes :=
+  truncateTo file off ++ b ++ file.drop (off + b.length)
+
+/-- `checkFile` of the current code: (file after start-up, Offset, redelivered records); `none` = scan error -/
+def checkFile (file : Bytes) : Option (Bytes × Nat × List Record) :=
+  if (scan file).stop = .eof then some (truncateTo file (scan file).off, (scan file).off, (scan file).recs)
+  else none
+
+/-- `checkFile` BEFORE that fix: the file is left as it is -/
+def checkFileLegacy (file : Bytes) : Option (Bytes × Nat × List Record) :=
+  if (scan file).stop = .eof then some (file, (scan file).off, (scan file).recs) else none
+
 /-! ### abstract store behind the queue (bitcask + position index), last writer wins -/
 
 abbrev StoreKey := Nat × Bytes
@@ -316,35 +339,43 @@ structure Disk where
   wal : List Record      -- complete records in tmp.data
   kv : Store             -- bitcask files + position index
   stable : Nat           -- LEMO-CURRENT-BLOCK, as a height
-  
+  cands : Nat            -- context.data: the height whose candidate list the file holds
+
 structure Promotion where
   height : Nat
   batch : List Record
+  changesCands : Bool    -- the block changes a candidate: blockCommit ends with Context.Flush
 
 /-- where the process dies during `blockCommit` of a promotion -/
 inductive CrashPoint where
   | before                          -- before PutBatch touches anything
   | walReset                        -- inside emptyFile: tmp.data emptied, nothing appended yet
+                                    --   (only when nothing is pending: `queue_wal_removed_only_when_idle`)
   | appending (j : Nat)             -- during the append: the first `j` records of the batch are in the file
-  | committed (a : Nat) (moved : Bool)
-      -- fsync returned (whole batch in tmp.data); the async writer has stored the first `a` records;
-      -- `moved`: SetCurrentBlock has been executed
+  | committed (a : Nat) (moved flushed : Bool)
+      -- fsync returned (whole batch in tmp.data); the async writer has stored `a` more records of tmp.data;
+      -- `moved`: SetCurrentBlock executed; `flushed`: Context.Flush completed (the rename happened)
   deriving Repr
 
-/-- durable state left behind by a crash at `cp` while promoting `p` on top of the quiescent disk `d` -/
+/-- durable state left behind by a crash at `cp` while promoting `p` on top of the disk `d`. `d` need not be
+    quiescent (the writer may lag; the second block of a multi-block SetStableBlock): the batch is appended
+    behind whatever tmp.data holds. -/
 def crashState (d : Disk) (p : Promotion) : CrashPoint → Disk
   | .before => d
   | .walReset => { d with wal := [] }
-  | .appending j => { d with wal := p.batch.take j }
-  | .committed a moved =>
-    { wal := p.batch, kv := d.kv.replay (p.batch.take a), stable := if moved then p.height else d.stable }
+  | .appending j => { d with wal := d.wal ++ p.batch.take j }
+  | .committed a moved flushed =>
+    { wal := d.wal ++ p.batch, kv := d.kv.replay ((d.wal ++ p.batch).take a),
+      stable := if moved then p.height else d.stable,
+      cands := if flushed && p.changesCands then p.height else d.cands }
 
-/-- the start-up sequence: redeliver the whole write-ahead file; the pointer is read as stored -/
+/-- the start-up sequence: redeliver the whole write-ahead file; pointer and context.data are read as stored -/
 def recover (d : Disk) : Disk := { d with kv := d.kv.replay d.wal }
 
-/-- the state of a node that never stopped, after the promotion completed and the queue drained -/
+/-- the state of a node that never stopped, after the promotion completed -/
 def completed (d : Disk) (p : Promotion) : Disk :=
-  { wal := p.batch, kv := d.kv.replay p.batch, stable := p.height }
+  { wal := d.wal ++ p.batch, kv := d.kv.replay (d.wal ++ p.batch), stable := p.height,
+    cands := if p.changesCands then p.height else d.cands }
 
 /-- start-up on the bytes of tmp.data: `none` = the scan fails (`FileQueue.Start` panics) or never ends;
     otherwise every record the scan returns is redelivered to the store -/
@@ -358,8 +389,8 @@ def recoverBytes (kv : Store) (walBytes : Bytes) : Option Store := recoverWith s
 /-- code before the fix -/
 def recoverBytesLegacy (kv : Store) (walBytes : Bytes) : Option Store := recoverWith scanLegacy kv walBytes
 
-/-- what the property's observables can see: the key/value contents and the stable pointer -/
-def Disk.sameView (a b : Disk) : Prop := a.kv = b.kv ∧ a.stable = b.stable
+/-- what the property's observables can see: key/value contents, stable pointer, candidate list -/
+def Disk.sameView (a b : Disk) : Prop := a.kv = b.kv ∧ a.stable = b.stable ∧ a.cands = b.cands
 
 /-! ### context.data (candidate list): how the file is replaced
 
